@@ -27,6 +27,9 @@ pub enum Expr {
     Iss(String),
     Aud(String),
     NoVal,
+    /// a caller's own validator: accepts, or rejects with the given error kind
+    /// (0 ClaimsError, 1 PayloadError with a reason, 2 InvalidToken, 3 InvalidKey, 4 CryptoError)
+    Custom { accept: bool, kind: u8 },
     And(Box<Expr>, Box<Expr>),
     VecOf(Vec<Expr>),
     SliceOf(Vec<Expr>),
@@ -98,6 +101,7 @@ fn eval(e: &Expr, c: &Case) -> bool {
         Expr::Iss(s) => cl.iss.as_deref() == Some(s.as_str()),
         Expr::Aud(s) => cl.aud.as_deref() == Some(s.as_str()),
         Expr::NoVal => true,
+        Expr::Custom { accept, .. } => *accept,
         Expr::And(a, b) => eval(a, c) && eval(b, c),
         Expr::VecOf(v) | Expr::SliceOf(v) => v.iter().all(|x| eval(x, c)),
         Expr::Boxed(x) | Expr::RcOf(x) | Expr::ArcOf(x) | Expr::Map(x) => eval(x, c),
@@ -130,6 +134,39 @@ impl<V: Validate<Claims = Wrap>> Validate for Unwrapper<V> {
 
 type Dyn = Box<dyn Validate<Claims = RegisteredClaims>>;
 
+/// what an application's own validator may look like: it reports rejection with whichever
+/// PasetoError it finds fitting (PayloadError is the only variant that can carry a reason)
+struct CustomValidator {
+    accept: bool,
+    kind: u8,
+}
+impl Validate for CustomValidator {
+    type Claims = RegisteredClaims;
+    fn validate(&self, _claims: &RegisteredClaims) -> Result<(), PasetoError> {
+        if self.accept {
+            return Ok(());
+        }
+        Err(match self.kind % 5 {
+            0 => PasetoError::ClaimsError,
+            1 => PasetoError::PayloadError("custom validator: missing claim".into()),
+            2 => PasetoError::InvalidToken,
+            3 => PasetoError::InvalidKey,
+            _ => PasetoError::CryptoError,
+        })
+    }
+}
+
+/// does the tree contain a custom leaf that rejects with something other than ClaimsError?
+fn has_foreign_rejection(e: &Expr) -> bool {
+    match e {
+        Expr::Custom { accept, kind } => !*accept && kind % 5 != 0,
+        Expr::And(a, b) => has_foreign_rejection(a) || has_foreign_rejection(b),
+        Expr::VecOf(v) | Expr::SliceOf(v) => v.iter().any(has_foreign_rejection),
+        Expr::Boxed(x) | Expr::RcOf(x) | Expr::ArcOf(x) | Expr::Map(x) => has_foreign_rejection(x),
+        _ => false,
+    }
+}
+
 fn build(e: &Expr, c: &Case) -> Dyn {
     let now = ts(c.now(), 0);
     match e {
@@ -140,6 +177,7 @@ fn build(e: &Expr, c: &Case) -> Dyn {
         Expr::Iss(s) => Box::new(FromIssuer(s.clone())),
         Expr::Aud(s) => Box::new(ForAudience(s.clone())),
         Expr::NoVal => Box::new(NoValidation::<RegisteredClaims>::dangerous_no_validation()),
+        Expr::Custom { accept, kind } => Box::new(CustomValidator { accept: *accept, kind: *kind }),
         Expr::And(a, b) => Box::new(build(a, c).and_then(build(b, c))),
         Expr::VecOf(v) => Box::new(v.iter().map(|x| build(x, c)).collect::<Vec<Dyn>>()),
         Expr::SliceOf(v) => {
@@ -188,6 +226,7 @@ fn expr_strategy() -> impl Strategy<Value = Expr> {
         2 => name_strategy().prop_map(Expr::Sub),
         2 => name_strategy().prop_map(Expr::Iss),
         2 => name_strategy().prop_map(Expr::Aud),
+        3 => (prop::bool::weighted(0.6), 0u8..5).prop_map(|(accept, kind)| Expr::Custom { accept, kind }),
         1 => Just(Expr::NoVal),
     ];
     leaf.prop_recursive(3, 24, 4, |inner| {
@@ -266,6 +305,7 @@ fn validator_case(c: &Case, acc: &mut Acc) -> R {
                 format!("validator {:?} accepted claims {:?} (now {}.{:09}, leeway {}.{:09})", c.expr, c.claims, c.now_s, c.now_ns, c.leeway_s, c.leeway_ns),
             ));
         }
+        (Err(_), false) if has_foreign_rejection(&c.expr) => {} // the caller's own validator chose the error kind
         (Err(e), false) => return Err(Fail::new("C11/validate/wrong-error-kind", format!("rejection reported as {} instead of ClaimsError", err_kind(e)))),
         (Err(e), true) => {
             return Err(Fail::new(
@@ -312,6 +352,7 @@ fn unseal_case<B: Backend>(c: &Case, acc: &mut Acc) -> R {
             ensure!(cl.exp == claims.exp && cl.nbf == claims.nbf && cl.sub == claims.sub && cl.iss == claims.iss && cl.aud == claims.aud, format!("C11/{name}/unseal/claims-differ"), "released claims differ");
         }
         (Err(PasetoError::ClaimsError), false) => {}
+        (Err(_), false) if has_foreign_rejection(&c.expr) => {} // rejected with the custom validator's own error kind
         (Ok(_), false) => return Err(Fail::new(format!("C11/{name}/unseal/released-despite-rejecting-validator"), format!("unseal returned claims although validator {:?} rejects {:?}", c.expr, c.claims))),
         (Err(e), _) => return Err(Fail::new(format!("C11/{name}/unseal/unexpected-{}", err_kind(e)), format!("expected {} but got {}", if want { "Ok" } else { "ClaimsError" }, err_kind(e)))),
     }
@@ -356,7 +397,7 @@ pub fn def() -> PropertyDef {
     PropertyDef {
         id: "C11",
         level: "exploration",
-        rule: "proptest cases: RegisteredClaims (each field absent/present; exp/nbf at now, now+-1ns, now+-leeway, now+-leeway+-1ns, near, far, and the ends of jiff's range +-1ns / +-leeway) x now x leeway (0, 1 ns, up to 10^8 s) x validator expression trees up to depth 3 over {Time, TimeWithLeeway, HasExpiry, ForSubject, FromIssuer, ForAudience, NoValidation, and_then, Vec, boxed slice, Box, Rc, Arc, map (through a wrapper type with a decoy field)}; oracle: an independent evaluator over i128 nanoseconds - validate is Ok iff it accepts, otherwise exactly ClaimsError; end to end on every back end and both purposes: unseal returns the claims iff the evaluator accepts, else ClaimsError. Non-trivial iff a timestamp lies on or 1 ns beside a boundary, or the tree has >= 2 combinators; both outcomes are counted",
+        rule: "proptest cases: RegisteredClaims (each field absent/present; exp/nbf at now, now+-1ns, now+-leeway, now+-leeway+-1ns, near, far, and the ends of jiff's range +-1ns / +-leeway) x now x leeway (0, 1 ns, up to 10^8 s) x validator expression trees up to depth 3 over {Time, TimeWithLeeway, HasExpiry, ForSubject, FromIssuer, ForAudience, NoValidation, a caller-written validator that accepts or rejects with any PasetoError variant, and_then, Vec, boxed slice, Box, Rc, Arc, map (through a wrapper type with a decoy field)}; oracle: an independent evaluator over i128 nanoseconds - validate is Ok iff it accepts, otherwise exactly ClaimsError; end to end on every back end and both purposes: unseal returns the claims iff the evaluator accepts, else ClaimsError. Non-trivial iff a timestamp lies on or 1 ns beside a boundary, or the tree has >= 2 combinators; both outcomes are counted",
         assumptions: vec!["TimeWithLeeway only where now +- leeway is representable in jiff", "Time::valid_now() only with margins of whole days"],
         subs,
     }
